@@ -162,6 +162,13 @@ func (x *Exec) havocWorlds(s *State, ws WriteSet, tag string) {
 			}
 		}
 		w.RestMod = nm
+		if ws["*"] {
+			w.ModVer = nil
+		} else {
+			for mod := range ws {
+				delete(w.ModVer, mod)
+			}
+		}
 		for fid := range w.Fams {
 			if ws["*"] || ws[modOfFam(fid)] {
 				delete(w.Fams, fid) // re-created lazily from the new remainder
@@ -185,6 +192,11 @@ func (x *Exec) loopInvariants(ord int) []*Clause {
 
 func (x *Exec) checkInvs(s *State, invs []*Clause, ord int, phase string, pos token.Pos) {
 	for _, inv := range invs {
+		if inv.Assumed {
+			// a state invariant of another module's data: assumed at the loop head, never counted as proved
+			x.Trusted["state invariant #"+inv.Tag+" is assumed at the head of loop "+fmt.Sprint(ord)+" of "+x.fnTag+" (not checked)"]++
+			continue
+		}
 		t := x.evalClause(s, inv, nil)
 		name := fmt.Sprintf("%s/loop%d-%s#%s", x.fnTag, ord, phase, inv.Tag)
 		x.Obls = append(x.Obls, &Obligation{Name: name, Prop: inv.propOr(x.propTag), Kind: "loop-" + phase, Hyp: s.PC, Goal: t, Pos: x.Pr.Pos(pos), Src: inv.Src, Inputs: x.entryInputs})
